@@ -582,34 +582,54 @@ def gen_selected(loader, check, replay_on=True):
             check.ob("emit_final_seq_return#unused-value-operations-keep-their-source-order", inst, p.ctx.pc, tags == ["pending0", "pending1"], detail=f"final sequence order {tags}",
                      replay=("c06.source", lambda mdl, n0=n0: {"case": f"order-{n0}"}) if replay_on else None)
 
-    # dead arm of a constant condition: its side effect is evaluated zero times (removed everywhere)
+    # dead arm of a constant condition: its side effect is evaluated zero times (removed everywhere); the LIVE arm's pending effect stays
     check.under_contract(loader, loader.load(tkit.M_H).globals["ILOpsHolder"].methods["update_hybrid_ref"])
-    check.instances_declared += 1
+    for variant in ("0 ? v++ : 3", "0 ? v++ : w++", "1 ? v++ : w++"):
+        check.instances_declared += 1
 
-    def setup_d(it):
-        t = tkit.mk_transformer(it, stub_add_op=False, symbolic_count=False)
-        v = it.call(tkit.method(it, t, "add_op"), [irkit.mk_var(it, "v", (True, 32))], {})
-        HT = irkit.enum(loader, "Hybrid", "HybridType")
-        h = it.call(tkit.method(it, t, "add_op"), [it.call(irkit.C(loader, "PostfixIncDec"), ["op_INC", v, v.fields["value_type"], HT("++")], {})], {})
-        tmp = it.call(tkit.method(it, t, "resolve_hybrid"), [h], {})
-        zero = it.call(tkit.method(it, t, "add_op"), [it.call(irkit.C(loader, "Number"), ["const_0", 0, conc_vt(loader, (True, 32))], {})], {})
-        three = it.call(tkit.method(it, t, "add_op"), [it.call(irkit.C(loader, "Number"), ["const_3", 3, conc_vt(loader, (True, 32))], {})], {})
-        it.ctx.mark_pre(t)
-        return {"t": t, "items": [zero, tmp, three], "h": h}
-    ex = explore(loader, setup_d, lambda it, st: it.call(tkit.method(it, st["t"], "conditional_expr"), [st["items"]], {}))
-    check.absorb(ex, "dead hybrid arm")
-    if ex.paths:
-        check.instances_generated += 1
-    for p in ex.paths:
-        inst = "0 ? v++ : 3"
-        check.ob("conditional_expr[fold]#total", inst, p.ctx.pc, p.outcome == "return", detail="" if p.outcome == "return" else f"raises {p.value!r}")
-        if p.outcome != "return":
-            continue
-        hld = p.state["t"].fields["il_ops_holder"]
-        left = [k for k in hld.fields["write_ops"]]
-        check.ob("conditional_expr[fold]#dead-arm-side-effect-is-evaluated-zero-times", inst, p.ctx.pc,
-                 len(pending(p.state["t"])) == 0 and not any(v is p.state["h"] for v in hld.fields["write_ops"].values()) and left == [],
-                 detail=f"pending {list(pending(p.state['t']))}, write table {left}")
+        def setup_d(it, variant=variant):
+            t = tkit.mk_transformer(it, stub_add_op=False, symbolic_count=False)
+            HT = irkit.enum(loader, "Hybrid", "HybridType")
+
+            def hyb(nm):
+                v = it.call(tkit.method(it, t, "add_op"), [irkit.mk_var(it, nm, (True, 32))], {})
+                h = it.call(tkit.method(it, t, "add_op"), [it.call(irkit.C(loader, "PostfixIncDec"), ["op_INC", v, v.fields["value_type"], HT("++")], {})], {})
+                return h, it.call(tkit.method(it, t, "resolve_hybrid"), [h], {})
+            hv, tv = hyb("v")
+            if "w++" in variant:
+                hw, tw = hyb("w")
+            else:
+                hw, tw = None, it.call(tkit.method(it, t, "add_op"), [it.call(irkit.C(loader, "Number"), ["const_3", 3, conc_vt(loader, (True, 32))], {})], {})
+            cond = it.call(tkit.method(it, t, "add_op"), [it.call(irkit.C(loader, "Number"), ["const_c", int(variant[0]), conc_vt(loader, (True, 32))], {})], {})
+            pend = dict(pending(t))
+            it.ctx.mark_pre(t)
+            dead, live = (hv, hw) if variant[0] == "0" else (hw, hv)
+            return {"t": t, "items": [cond, tv, tw], "dead": dead, "live": live, "pend0": pend}
+        ex = explore(loader, setup_d, lambda it, st: it.call(tkit.method(it, st["t"], "conditional_expr"), [st["items"]], {}))
+        check.absorb(ex, f"dead hybrid arm {variant}")
+        if ex.paths:
+            check.instances_generated += 1
+        for p in ex.paths:
+            inst = variant
+            check.ob("conditional_expr[fold]#total", inst, p.ctx.pc, p.outcome == "return", detail="" if p.outcome == "return" else f"raises {p.value!r}")
+            if p.outcome != "return":
+                continue
+            hld = p.state["t"].fields["il_ops_holder"]
+            pend = pending(p.state["t"])
+            dead, live = p.state["dead"], p.state["live"]
+
+            def mentions(seq, h):
+                return any(e is h for e in (seq_effects(seq, loader) or []))
+            dead_gone = not any(mentions(sq, dead) for sq in pend.values()) and not any(v is dead for v in hld.fields["write_ops"].values())
+            live_ok = live is None or sum(1 for sq in pend.values() if mentions(sq, live)) == 1
+            left = [k for k, v in hld.fields["write_ops"].items() if not (live is not None and (v is live or any(mentions(sq, v) or sq is v for sq in pend.values())))]
+            rp = ("c06.source", lambda mdl, variant=variant: {"case": f"dead-{variant}"}) if replay_on else None
+            check.ob("conditional_expr[fold]#dead-arm-side-effect-is-evaluated-zero-times", inst, p.ctx.pc,
+                     dead_gone and (live is not None or (len(pend) == 0 and left == [])), replay=rp,
+                     detail=f"pending {list(pend)}, write table {list(hld.fields['write_ops'])}")
+            if live is not None:
+                check.ob("conditional_expr[fold]#live-arm-side-effect-stays-pending-exactly-once", inst, p.ctx.pc, bool(live_ok), replay=rp,
+                         detail=f"pending {list(pend)}")
 
 
 # ------------------------------------------------------------------------------------------ replay (source level)
@@ -641,6 +661,22 @@ def replay_source(a):
         inc = [l.split("*")[1].split(" ")[0] for l in txt.splitlines() if "SEQN(2, op_ASSIGN_hybrid_tmp" in l][0]
         args = seq[seq.index("(") + 1:].split(", ")
         return args[1].strip() == inc, f"{{ x = n; n++; x = n; }}: the increment {inc} is the first effect of {seq.strip()} - before x = n (C: between the two assignments)"
+    if case.startswith("dead-"):
+        variant = case[5:]
+        src = {"0 ? v++ : 3": "{ int32_t v = 1; RdV = 0 ? v++ : 3; RtV = v; }", "0 ? v++ : w++": "{ int32_t v = 1; int32_t w = 1; RdV = 0 ? v++ : w++; RtV = v; RsV = w; }",
+               "1 ? v++ : w++": "{ int32_t v = 1; int32_t w = 1; RdV = 1 ? v++ : w++; RtV = v; RsV = w; }"}[variant]
+        try:
+            txt = c.compile_c_stmt(src)
+        except Exception as e:
+            return True, f"{src} raised {type(e).__name__}: {e}"
+        lines = [l for l in txt.splitlines() if l.startswith("RzILOp")]
+        names = {l.split("*")[1].split(" ")[0] for l in lines}
+        used = set(re.findall(r"\b(?:seq|op|branch|cond|c_call|gcc_expr|jump)_\w+", " ".join(l.split("=", 1)[1] for l in lines)))
+        undeclared = sorted(u for u in used if u not in names)
+        incs = [l for l in lines if "INC(" in l]
+        want = 0 if variant == "0 ? v++ : 3" else 1
+        bad = bool(undeclared) or len(incs) != want
+        return bad, f"{src}: increments emitted {len(incs)} (expected {want}); undeclared names used: {undeclared}"
     if case.startswith("gcc-order-"):
         arm = case.rsplit("-", 1)[1]
         src = "{ int32_t i = 0; RdV = (RsV == RtV) ? ({ i = 5; i; }) : 7; }" if arm == "then" else "{ int32_t i = 0; RdV = (RsV == RtV) ? 7 : ({ i = 5; i; }); }"
